@@ -404,6 +404,144 @@ def parse_methods(repo, cb_slots, visible, helper_refs, routines):
     return out
 
 
+# ----------------------------------------------------------------------------- callback classes
+CALLBACK_FILES = ["include/tapkee/callbacks/dummy_callbacks.hpp", "include/tapkee/callbacks/eigen_callbacks.hpp",
+                  "include/tapkee/callbacks/precomputed_callbacks.hpp"]
+TRAITS = "include/tapkee/traits/callbacks_traits.hpp"
+
+
+def parse_callback_classes(repo):
+    """(class, has `typedef int dummy`, [(member function, body is a throw statement)])"""
+    out = []
+    for rel in CALLBACK_FILES:
+        classes, _ = find_classes(strip_comments(read(repo, rel)))
+        for name, _, body in classes:
+            marked = False
+            members = []
+            for d in split_decls(body):
+                if d[0] == "@access":
+                    continue
+                if d[-1] == ";":
+                    if d[:-1] == ["typedef", "int", "dummy"]:
+                        marked = True
+                    elif d[0] == "typedef" and d[-2] == "dummy":
+                        raise TranslateError("%s: `dummy` is declared, but not as `typedef int dummy`" % name)
+                    elif d[0] == "using" and "dummy" in d:
+                        marked = True
+                    continue
+                t = skip_template_header(d)
+                k = t.index("(")
+                fname = t[k - 1]
+                if fname == name:
+                    continue          # constructor
+                if fname == ")" or not is_ident(fname):
+                    fname = "operator()"
+                    k = t.index("(", k + 1) if t[k + 1] == ")" else k
+                close = match(t, k, "(", ")")
+                j = close + 1
+                while t[j] != "{":
+                    j += 1
+                e = match(t, j, "{", "}")
+                fb = t[j + 1:e]
+                members.append((fname if t[k - 1] != "operator" else "operator()", bool(fb) and fb[0] == "throw"))
+            out.append((name, marked, members))
+    # the trait itself
+    tt = " ".join(lex(strip_comments(read(repo, TRAITS))))
+    want = ["template < class T > class is_dummy {", "typedef char yes ;", "typedef long no ;",
+            "template < typename C > static yes dummy ( typename C :: dummy * ) ;",
+            "template < typename C > static no dummy ( ... ) ;" ,
+            "static const bool value = ( sizeof ( dummy < T > ( 0 ) ) == sizeof ( yes ) ) ;"]
+    tt = tt.replace(". . .", "...")
+    for w in want:
+        if w not in tt:
+            raise TranslateError("is_dummy<T> has an unexpected shape (missing: %s)" % w)
+    return out
+
+
+# ----------------------------------------------------------------------------- dereference sites
+DEREF_GLOBS = ["include/tapkee/routines/*.hpp", "include/tapkee/utils/features.hpp", "include/tapkee/neighbors/*.hpp",
+               "include/tapkee/methods/*.hpp"]
+CB_MEMBERS = ("kernel", "distance", "vector")
+UNARY_PREV = set("( , = { ; ! < > + - * / ? : [ && || == != <= >= return".split())
+
+
+def iterator_names(toks):
+    """identifiers declared with the bare type RandomAccessIterator (by value, const, reference)"""
+    names = set()
+    for i, t in enumerate(toks):
+        if t == "RandomAccessIterator" and (i == 0 or toks[i - 1] not in ("class", "typename", "<", ",")) \
+                and i + 1 < len(toks):
+            j = i + 1
+            while j < len(toks) and toks[j] in ("&", "const"):
+                j += 1
+            # `RandomAccessIterator a, b;` / parameter lists
+            if j < len(toks) and is_ident(toks[j]) and toks[j] not in ("begin_", ) and (toks[i - 1] != "<" if i else True):
+                if j + 1 < len(toks) and toks[j + 1] in (",", ")", ";", "=", "(", ":"):
+                    names.add(toks[j])
+    return names
+
+
+def enclosing_callee(toks, i):
+    """tokens of the callee of the innermost call whose argument list contains position i (or None)"""
+    depth, k = 0, i - 1
+    while k >= 0:
+        if toks[k] in (")", "]"):
+            depth += 1
+        elif toks[k] in ("(", "["):
+            if depth == 0:
+                break
+            depth -= 1
+        elif toks[k] in (";", "{", "}") and depth == 0:
+            return None
+        k -= 1
+    if k <= 0 or toks[k] != "(":
+        return None
+    if k >= 3 and toks[k - 2] == "." and is_ident(toks[k - 1]) and is_ident(toks[k - 3]):
+        return [toks[k - 3], ".", toks[k - 1]]
+    if is_ident(toks[k - 1]):
+        if toks[k - 1] in ("if", "while", "for", "return", "sizeof", "static_cast"):
+            return enclosing_callee(toks, k)
+        return [toks[k - 1]]
+    if toks[k - 1] in UNARY_PREV or toks[k - 1] == "*":
+        return enclosing_callee(toks, k)     # a parenthesised sub-expression
+    return None
+
+
+def parse_derefs(repo):
+    """every place where a RandomAccessIterator is dereferenced: (file, line-ish snippet, goes to a callback?)"""
+    out = []
+    seen_files = []
+    for g in DEREF_GLOBS:
+        for p in sorted(glob.glob(os.path.join(repo, g))):
+            rel = os.path.relpath(p, repo)
+            if rel in seen_files:
+                continue
+            seen_files.append(rel)
+            toks = lex(join_continuations(strip_comments(open(p).read())))
+            its = iterator_names(toks)
+            if not its:
+                continue
+            for i, t in enumerate(toks):
+                site = None
+                if t == "*" and (i == 0 or toks[i - 1] in UNARY_PREV) and i + 1 < len(toks):
+                    if toks[i + 1] in its and (i + 2 >= len(toks) or toks[i + 2] not in ("(",)):
+                        site = i
+                    elif toks[i + 1] == "(" and i + 2 < len(toks) and toks[i + 2] in its:
+                        site = i
+                elif t in its and i + 1 < len(toks) and toks[i + 1] == "[" and (i == 0 or toks[i - 1] not in (".", "->", "::")):
+                    site = i
+                elif t in its and i + 1 < len(toks) and toks[i + 1] == "->":
+                    site = i
+                if site is None:
+                    continue
+                callee = enclosing_callee(toks, site)
+                ok = callee is not None and len(callee) == 3 and callee[2] in CB_MEMBERS
+                lo = max(0, site - 6)
+                snippet = " ".join(toks[lo:site + 8])
+                out.append((rel.replace("include/tapkee/", ""), snippet, ok, " ".join(callee) if callee else "-"))
+    return out, seen_files
+
+
 def translate(repo):
     fields, traits, inits, methods = parse_defs(repo)
     order, ftypes, type_to_slot, cb_slots, guarded, unguarded, helper_refs, visible = parse_base(repo)
@@ -421,8 +559,11 @@ def translate(repo):
     for name in impl:
         if name not in [m for m, _ in methods]:
             raise TranslateError("implementation block for undeclared method " + name)
+    cbs = parse_callback_classes(repo)
+    derefs, deref_files = parse_derefs(repo)
     return {"trait_fields": fields, "traits": traits, "method_inits": inits, "guards": guards,
-            "base_refs": guarded, "base_unguarded": unguarded, "methods": mds, "dispatched": dispatched}
+            "base_refs": guarded, "base_unguarded": unguarded, "methods": mds, "dispatched": dispatched,
+            "callback_classes": cbs, "derefs": derefs, "deref_files": deref_files}
 
 
 def render(t):
@@ -449,7 +590,13 @@ def render(t):
                   % (q(name), q(trait), coq_strs(refs),
                      coq_list(["(%s, %s)" % (q(s), coq_strs(inv[s])) for s in refs if s in inv])))
     out.append("  u_methods := [\n" + ";\n".join(ms) + "];")
-    out.append("  u_dispatched := %s |}." % coq_strs(t["dispatched"]))
+    out.append("  u_dispatched := %s;" % coq_strs(t["dispatched"]))
+    out.append("  u_callback_classes := [\n" + ";\n".join(
+        "    (%s, %s, %s)" % (q(n), b(mk), coq_list(["(%s, %s)" % (q(f), b(th)) for f, th in ms_]))
+        for n, mk, ms_ in t["callback_classes"]) + "];")
+    out.append("  u_deref_files := %s;" % coq_strs([f.replace("include/tapkee/", "") for f in t["deref_files"]]))
+    out.append("  u_derefs := [\n" + ";\n".join(
+        "    (%s, %s, %s)" % (q(f), q(sn), b(ok)) for f, sn, ok, _ in t["derefs"]) + "] |}.")
     out.append("")
     return "\n".join(out)
 
